@@ -171,6 +171,9 @@ func (rs *rigState) scenarioItems() []*txgen.Item {
 		return nil
 	}
 	t := sc.t
+	if t.Pick(1, 3) == 0 {
+		return nil // this block stays purely random (and may go through the mempool)
+	}
 	sc.newKind = map[common.Address]txgen.ContractKind{}
 	sc.killed = nil
 	var out []*txgen.Item
